@@ -287,6 +287,33 @@ theorem supported_iff (cmds : List Cmd) :
     rw [hs] at hs'; cases hs'
     exact ⟨this.1 ⟨s, hs, hl'⟩, by omega⟩
 
+theorem Sys.solve_tooMany (s : Sys) (wf : s.WF) (h : ¬ s.cons.length ≤ maxCons) : s.solve = .tooMany := by
+  unfold Sys.solve
+  have h0 : s.doms.length ≠ 0 := by
+    intro h0
+    cases hc : s.cons with
+    | nil => rw [hc] at h; simp [maxCons] at h
+    | cons c _ => have := (wf.wfc c (by rw [hc]; exact List.mem_cons_self ..)).1; omega
+  rw [if_neg h0, if_pos (by omega)]
+
+/-- forget the value preference of a call -/
+def erasePref : Cmd → Cmd
+  | .addVar _ lo hi => .addVar .small lo hi
+  | c => c
+
+theorem erase_props (c : Cmd) (n : Nat) (σ : Asg) :
+    (erasePref c).okAt n = c.okAt n ∧ (erasePref c).nv = c.nv ∧ (erasePref c).nc = c.nc ∧ ((erasePref c).holds n σ ↔ c.holds n σ) := by
+  cases c <;> simp [erasePref, Cmd.okAt, Cmd.nv, Cmd.nc, Cmd.holds]
+
+theorem erase_list : ∀ (cmds : List Cmd) (n : Nat) (σ : Asg),
+    okFrom n (cmds.map erasePref) = okFrom n cmds ∧ nConsOf (cmds.map erasePref) = nConsOf cmds ∧
+    nVarsOf (cmds.map erasePref) = nVarsOf cmds ∧ (SatFrom n (cmds.map erasePref) σ ↔ SatFrom n cmds σ)
+  | [], n, σ => by simp [okFrom, nConsOf, nVarsOf, SatFrom]
+  | c :: r, n, σ => by
+    obtain ⟨a1, a2, a3, a4⟩ := erase_props c n σ
+    obtain ⟨b1, b2, b3, b4⟩ := erase_list r (n + c.nv) σ
+    simp only [List.map_cons, okFrom, nConsOf, nVarsOf, SatFrom, a1, a2, a3, a4, b1, b2, b3, b4, and_self]
+
 /-! ### `int` ranges -/
 
 theorem minBit_range (d : Dom) : -16 ≤ minBit d ∧ minBit d ≤ 47 := by
